@@ -9,3 +9,8 @@ def run(chk):
                 "flaky scripts under all mode combinations and schedules; non-trivial = at least one "
                 "failed change attempt and one track_playback_started; distinct by op sequence")
     core_check.run_core(chk, "C05", [("faults", 7), ("schedule", 2)], ["Property_C05.v"])
+    if not chk.replay:
+        # provider methods failing outside the modelled environment (monitor-only, real Core)
+        import core_faulty
+
+        core_faulty.run_stage(chk, "C05")
